@@ -131,3 +131,34 @@ Proof.
   exists t'. rewrite <- tie_from_bytes by discriminate. rewrite <- !tie_as_bytes, !tie_digest.
   now repeat split.
 Qed.
+
+(* ------------------------------------------------------------------ Tree.load *)
+(* json.load, the format check (every list is accepted), the legacy hash_name, from_list *)
+Definition g_load (odb_name : list N) (hash_name : option (list N)) (raw : list N) : fl_res :=
+  g_from_bytes (g_load_hash_name odb_name hash_name) raw.
+
+(* the empty listing "[]" re-loads to the empty tree from every store *)
+Theorem gen_load_empty odb_name : g_load odb_name None (g_as_bytes false []) = FlOk [].
+Proof.
+  unfold g_load, g_load_hash_name.
+  destruct (list_N_eqb odb_name _); reflexivity.
+Qed.
+
+Theorem gen_load_roundtrip t : Wf t -> NoDupKeys t ->
+  exists t', g_load s_md5 None (g_as_bytes false t) = FlOk t' /\
+    map obs t' = sorted_obs t /\ Permutation (map obs t') (map obs t) /\
+    g_as_bytes false t' = g_as_bytes false t /\ g_digest false t' = g_digest false t.
+Proof. exact (gen_roundtrip t). Qed.
+
+(* a legacy md5-dos2unix store *)
+Theorem gen_load_roundtrip_d2u t : Wf t -> NoDupKeys t ->
+  (forall e, In e t -> md5_valued (obs e)) ->
+  exists t', g_load s_md5_dos2unix None (g_as_bytes false t) = FlOk t' /\
+    map obs t' = sorted_obs t /\ Permutation (map obs t') (map obs t) /\
+    g_as_bytes false t' = g_as_bytes false t /\ g_digest false t' = g_digest false t.
+Proof.
+  intros Hw Hn Hm. destruct (from_bytes_as_bytes_d2u t Hw Hn Hm) as (t' & H1 & H2 & H3 & H4 & H5).
+  exists t'. unfold g_load. change (g_load_hash_name s_md5_dos2unix None) with (Some s_md5_dos2unix).
+  rewrite <- tie_from_bytes by discriminate. rewrite <- !tie_as_bytes, !tie_digest.
+  now repeat split.
+Qed.
